@@ -230,7 +230,7 @@ def gen_combinatorial(rnd, types=None, n_nodes=None, max_elems=12, id_style=None
     n_el = rnd.randint(len(types), max_elems)
     eids, _ = random_ids(rnd, n_el, rnd.choice(['dense', 'sparse', 'large']))
     rnd.shuffle(eids)
-    usable = id_list[:-1] if (unref and n_nodes > need) else id_list
+    usable = id_list[:-1] if (unref and n_nodes > need and rnd.random() < .35) else id_list
     blocks = {}
     for k, e in enumerate(eids):
         t = types[k] if k < len(types) else rnd.choice(types)
